@@ -11,9 +11,9 @@
      H_footprint             the clockwise ring encloses the footprint (area below a hemisphere, equal to the
                              footprint's area up to discretisation, interior pixel centres inside, far points outside)
      H_geos_intersection     shapely returns the vertices of (extent /\ Earth disk polygon) *)
-From Coq Require Import Reals ZArith List Lia Bool Sorted.
+From Coq Require Import Reals ZArith List Lia Bool Sorted PrimFloat.
 From PR Require Import Base.Num Base.RNum Base.F64 Model.Boundary
-     Gen.GenC16 Proofs.C16_idx Proofs.C16_ring Proofs.C16_f64 Proofs.C16_geos Proofs.C16_gen Proofs.C16_legacy Proofs.C16_decimate.
+     Gen.GenC16 Proofs.C16_idx Proofs.C16_ring Proofs.C16_f64 Proofs.C16_geos Proofs.C16_gen Proofs.C16_legacy Proofs.C16_decimate Proofs.C16_nan.
 Import ListNotations.
 Open Scope Z_scope.
 
@@ -205,3 +205,28 @@ Proof.
   apply Forall_forall. intros s Hs Hn. rewrite Forall_forall in Hl. apply decimate_side_no_repeat; auto.
 Qed.
 Print Assumptions C16_decimate_keeps_ring.
+
+(* ------------------------------------------------------------------ NaN coordinates *)
+(* _filter_sides_nans keeps a vertex iff NEITHER its longitude NOR its latitude is NaN (the two coordinate arrays may carry
+   different fill masks), keeps the order, and fails exactly when a side has no valid vertex left: no vertex with a NaN
+   coordinate can reach the ring, whichever of the two coordinates is the invalid one *)
+Theorem C16_nan_filter_spec : forall (T : Type) (OP : ops T) (sides r : list (list (T * T))),
+  filter_sides_nans OP sides = Some r ->
+  r = map (filter (valid_vertex OP)) sides
+  /\ Forall (fun s => s <> []) r
+  /\ Forall (Forall (fun p => isnan OP (fst p) = false /\ isnan OP (snd p) = false)) r
+  /\ (forall x y, isnan OP x = true \/ isnan OP y = true -> Forall (fun s => ~ In (x, y) s) r).
+Proof.
+  intros T OP sides r H. destruct (filter_sides_nans_spec OP sides r H) as (A & B & C).
+  repeat split; try assumption. intros x y Hn. exact (one_nan_coordinate_is_dropped OP sides r x y H Hn).
+Qed.
+Print Assumptions C16_nan_filter_spec.
+Theorem C16_nan_filter_error_iff : forall (T : Type) (OP : ops T) (sides : list (list (T * T))),
+  filter_sides_nans OP sides = None <-> Exists (Forall (fun p => valid_vertex OP p = false)) sides.
+Proof. intros T OP. exact (filter_sides_nans_error OP). Qed.
+Print Assumptions C16_nan_filter_error_iff.
+Example C16_nan_ex :
+  filter_sides_nans F64 [[(1%float, 2%float); (3%float, PrimFloat.nan); (PrimFloat.nan, 4%float); (5%float, 6%float)]]
+  = Some [[(1%float, 2%float); (5%float, 6%float)]]
+  /\ filter_sides_nans F64 [[(1%float, 2%float)]; [(3%float, PrimFloat.nan)]] = None.
+Proof. split; vm_compute; reflexivity. Qed.
